@@ -96,6 +96,9 @@ func genC13(r *rand.Rand, t *Trace, thorough bool) {
 		if it%6 == 0 {
 			p.nlist = 1 + r.Intn(32)
 		}
+		if it%20 == 0 {
+			p.nlist = 1 // (these histories start untrained) a single cell is no excuse: adds wait for Train like anywhere else
+		}
 		ntrain := p.nlist + r.Intn(4*p.nlist+6)
 		if thorough && it%25 == 0 {
 			ntrain = p.nlist + r.Intn(500-p.nlist)
@@ -116,6 +119,10 @@ func genC13(r *rand.Rand, t *Trace, thorough bool) {
 			// a tight, a wide and a medium cluster: the nearest vector of a farther cell can be closer than
 			// everything the nearer cells hold (no bound on the cell's radius may be assumed)
 			o.radii, o.fine = true, false
+			o.dumpBeforeSearch = true
+			if it%18 != 13 {
+				p.metric = 0 // mostly the metric under which "the rest cannot be nearer" is most tempting
+			}
 			p.dim = 1 + r.Intn(3)
 			p.nlist = 2 + r.Intn(3)
 			o.ntrain = 12 + r.Intn(20)
